@@ -126,7 +126,7 @@ def ntlm_scripts(work, tier, seed):
             if act == "Negotiate":
                 acts.append({"a": "neg", "s": a[0]})
             elif act == "Authenticate":
-                acts.append({"a": "auth", "s": a[0], "u": a[1], "pw": a[2], "src": a[3]})
+                acts.append({"a": "auth", "s": a[0], "u": a[1], "pw": a[2], "src": a[3], "dom": ["", "WORKGROUP", "example.com"][(len(scripts) + len(acts)) % 3]})
             elif act == "Replay":
                 acts.append({"a": "replay", "s": a[0]})
             elif act == "Garbage":
